@@ -99,19 +99,79 @@ def nontrivial(case, obs):
     return any(l.startswith("(ok (") and l != "(ok ())" for l in obs)
 
 
-def f25_collector_then_text(case, obs):
-    """every crash of the case is the NotImplementedError of a COLLECTOR-typed segment without collector
-    terms (text glued to a closing parenthesis, e.g. '(a)b')"""
+# finding F25 (text glued to a closing collector parenthesis, '(a)b': NotImplementedError) is repaired in the
+# parser; its witnesses stay in the corpus below
+def bracket_paren_tangle(path):
+    """the text opens a parenthesis directly inside an open bracket that is no keyword call ('[(a)]',
+    '[a=(x)]'), or closes a bracket while a parenthesis is the innermost open mark ('(]'): plain scan of the
+    unescaped, unquoted marks"""
+    stack, quote, esc, word = [], None, False, ""
+    for ch in path:
+        if esc:
+            esc = False
+            continue
+        if ch == "\\":
+            esc = True
+        elif quote:
+            if ch == quote:
+                quote = None
+        elif ch in "'\"":
+            quote = ch
+        elif ch == "[":
+            stack.append(ch)
+            word = ""
+            continue
+        elif ch == "(":
+            if stack and stack[-1] == "[" and not any(word.strip().lstrip("!").strip() == k[:-1] for k in KW_NAMES):
+                return True
+            stack.append(ch)
+        elif ch == "]":
+            if stack and stack[-1] == "(":
+                return True
+            if stack:
+                stack.pop()
+        elif ch == ")":
+            if stack and stack[-1] == "(":
+                stack.pop()
+        word = word + ch if ch not in "[]()" else ""
+    return False
+
+
+def untyped_segment(path, depth=0):
+    """the path (or a collector expression / search attribute inside it) parses to a segment that has no type, or
+    is COLLECTOR-typed without collector terms"""
+    E = ec._ENV
+    from yamlpath.enums import PathSegmentTypes
+    if depth > 6:
+        return False
+    try:
+        segs = list(E["YAMLPath"](path)._parse_path(True))
+    except Exception:  # noqa
+        return False
+    for (t, a) in segs:
+        if t is None or (t is PathSegmentTypes.COLLECTOR and not isinstance(a, E["CollectorTerms"])):
+            return True
+        if isinstance(a, E["CollectorTerms"]) and untyped_segment(a.expression, depth + 1):
+            return True
+        if isinstance(a, E["SearchTerms"]) and untyped_segment(a.attribute, depth + 1):
+            return True
+    return False
+
+
+def f30_bracket_collector(case, obs):
+    """every crash of the case is the NotImplementedError of a segment without a usable type, in a path whose
+    parentheses and brackets are tangled ('[(a)]', '(][max(())]'); text merely glued to a collector ('(a)b',
+    the repaired F25) has no bracket and is NOT covered"""
     vs = list(violations(case, obs))
-    return bool(vs) and all(line == "(raise (crash NotImplemented))" and ec.collector_then_text(path)
-                            for path, _mode, line in vs)
+    return bool(vs) and all(line == "(raise (crash NotImplemented))" and bracket_paren_tangle(path)
+                            and untyped_segment(path) for path, _mode, line in vs)
 
 
-FINDING_PREDS = {"collector_then_text": f25_collector_then_text}
+FINDING_PREDS = {"bracket_collector_tangle": f30_bracket_collector}
 
 
 def corpus_chunks():
-    yield [("{a: 1, b: 2}", ["(a)b", "(a)'b'", "a.(b)c"]),
+    yield [("{a: 1, b: 2}", ["(a)b", "(a)'b'", "a.(b)c"]), ("{a: 1, b: 2}", ["[(a)]", "(][max(())]", "a[(b)]"]),
            # keyword segments: the repaired defects and the seeded one
            ("x: {a: 1}", ["x[has_child(,)]", "x[!has_child(,)]"]), ("x: [[{a: 1}]]", ["x[0:1][0:1][0][max(a)]"]),
            ("x: {a: 1, b: 2}", ["x.*[parent()]", "x.**[parent()]", "x.*[parent(2)]"]),
